@@ -77,6 +77,10 @@ def corrupt(rnd, cmd, props, names, inflight, owner_mode):
         choices += ['conflict'] * 3
     if cmd == 'get':
         choices += ['bad_get_key']
+    if rnd.random() < .08 and cmd not in ('add',):
+        # `waiting` given as something else than a JSON boolean
+        props['waiting'] = rnd.choice([0, 1, '', 'no', 'x', 'true', None, [], 2.5])
+        return cmd, props, ['odd_waiting']
     if rnd.random() < .12:
         # left as it is: a well-formed request may still be refused (conflict, a hook's veto, ...) and the same
         # rule applies to it
